@@ -19,6 +19,8 @@
  *    (unwinding assertion).
  * MODE: 0 interactive, 1 -n, 2 -y, 3 -p
  */
+struct e2fsck_problem;
+static struct e2fsck_problem *find_problem(unsigned int code);	/* cut, see stub below */
 #include "e2fsck/problem.c"
 
 #define VF_NTAB   ((int)(sizeof(problem_table) / sizeof(problem_table[0])) - 1)
@@ -38,6 +40,39 @@ struct vf_in {
 };
 VF_DECLARE_INPUT(struct vf_in, IN)
 #include "vf_input.inc"
+
+/*
+ * STUB: find_problem() is cut (its own harness: find_problem.c): the specification stub copies the
+ * entry with that code out of the REAL problem_table into a private slot and returns the slot, so that
+ * fix_problem works on a small object.  The message text is replaced by "m" (only printed).
+ */
+#define VF_NSLOT 7
+static struct e2fsck_problem vf_slot[VF_NSLOT];
+static int vf_nslot;
+static struct e2fsck_problem *find_problem(unsigned int code)
+{
+	int k, i;
+	for (k = 0; k < VF_NSLOT; k++)
+		if (k < vf_nslot && vf_slot[k].e2p_code == code)
+			return &vf_slot[k];
+	for (k = 0; k < VF_NSLOT; k++)
+		if (k == vf_nslot)
+			break;
+	if (k >= VF_NSLOT) {
+		PROP(0, "harness: closure of a problem exceeds the slots");
+		return 0;
+	}
+	vf_slot[k].e2p_code = 0;
+	for (i = 0; i < VF_NTAB; i++)
+		if (problem_table[i].e2p_code == code) {
+			vf_slot[k] = problem_table[i];
+			vf_slot[k].e2p_description = "m";
+		}
+	if (!vf_slot[k].e2p_code)
+		return 0;
+	vf_nslot++;
+	return &vf_slot[k];
+}
 
 static struct e2fsck_struct vf_ctx;
 static struct struct_ext2_filsys vf_fs;
@@ -114,38 +149,12 @@ static void vf_run(struct vf_obs *o, problem_t code)
 		o->latch[i] = pr_latch_info[i].flags;
 }
 
-int main(void)
+static void vf_check(problem_t code, int f, int p)	/* code, flags, prompt of the entry in the real table */
 {
 	struct vf_obs a, b;
-	struct e2fsck_problem *e = 0;
-	problem_t code;
-	int f, p, i;
+	struct e2fsck_problem *e;
+	int i;
 
-	VF_INPUT(IN);
-	/* BOUND: every entry of the real problem_table (symbolic index) */
-	ASSUME(IN.idx < (unsigned) VF_NTAB);
-	for (i = 0; i < VF_NTAB; i++)
-		if ((unsigned) i == IN.idx)
-			e = &problem_table[i];
-	code = e->e2p_code;
-	f = e->flags;
-	p = e->prompt;
-
-	vf_ctx.fs = &vf_fs;
-	vf_ctx.device_name = "dev";
-	/* ASSUME: no log file / problem log (ctx->logf, ctx->problem_logf NULL): they only print */
-	/* ASSUME: at most one of -p / -n / -y (unix.c:PRS rejects combinations); one query per mode */
-	vf_ctx.options = (IN.options & ~(E2F_OPT_NO | E2F_OPT_YES | E2F_OPT_PREEN)) | VF_MODEBITS;
-#if MODE == 1
-	/* ASSUME: (inductive) under -n no latch is in state PRL_YES; re-established below */
-	for (i = 0; i < VF_NLATCH; i++)
-		ASSUME(!(IN.latch[i] & PRL_YES));
-#endif
-#if MODE == 2
-	/* ASSUME: under -y no latch is in state PRL_NO */
-	for (i = 0; i < VF_NLATCH; i++)
-		ASSUME(!(IN.latch[i] & PRL_NO));
-#endif
 	vf_max = IN.max_a;
 	vf_run(&a, code);
 
@@ -182,9 +191,10 @@ int main(void)
 #endif
 
 	/* run B: same state, same replies; display-only attributes changed */
+	e = &vf_slot[0];	/* the slot of the raised problem */
+	PROP(e->e2p_code == code, "harness: slot 0 holds the raised problem");
 	e->flags = (e->flags & ~PR_CONFIG) ^ (IN.flip & (PR_PREEN_NOHDR | PR_NO_NOMSG | PR_PREEN_NOMSG | PR_MSG_ONLY));
 	e->count = IN.count_b;
-	ASSUME(IN.count_b >= 0 && IN.count_b < 0x7fffffff);
 	vf_max = IN.max_b;
 	vf_run(&b, code);
 	PROP(a.ret == b.ret, "display flags / counters do not change the answer");
@@ -192,6 +202,34 @@ int main(void)
 	PROP(a.nask == b.nask, "display flags / counters do not change how often the user is asked");
 	for (i = 0; i < VF_NLATCH; i++)
 		PROP(a.latch[i] == b.latch[i], "display flags / counters do not change the latch register");
+}
+
+int main(void)
+{
+	int i, f = 0, p = 0;
+	problem_t code = 0;
+
+	VF_INPUT(IN);
+	/* BOUND: every entry of the real problem_table (symbolic index, dispatched to a concrete entry per path) */
+	ASSUME(IN.idx < (unsigned) VF_NTAB);
+	ASSUME(IN.count_b >= 0 && IN.count_b < 0x7fffffff);
+	vf_ctx.fs = &vf_fs;
+	vf_ctx.device_name = "dev";
+	/* ASSUME: no log file / problem log (ctx->logf, ctx->problem_logf NULL): they only print */
+	/* ASSUME: at most one of -p / -n / -y (unix.c:PRS rejects combinations); one query per mode */
+	vf_ctx.options = (IN.options & ~(E2F_OPT_NO | E2F_OPT_YES | E2F_OPT_PREEN)) | VF_MODEBITS;
+#if MODE == 1
+	/* ASSUME: (inductive) under -n no latch is in state PRL_YES; re-established by the PROP "-n: no latch turns to YES" */
+	for (i = 0; i < VF_NLATCH; i++)
+		ASSUME(!(IN.latch[i] & PRL_YES));
+#endif
+	for (i = 0; i < VF_NTAB; i++)
+		if ((unsigned) i == IN.idx) {
+			code = problem_table[i].e2p_code;
+			f = problem_table[i].flags;
+			p = problem_table[i].prompt;
+		}
+	vf_check(code, f, p);
 	VF_END();
 	return 0;
 }
